@@ -8,6 +8,19 @@ specs/DOETrace.tla    : code -> spec.  Call histories enumerated by TLC (transit
                         model) are run on every algorithm of DOELibraryFactory x dimensions 1-4 x asymmetric
                         dyadic bounds x float/mixed x n, recorded (c14_rec.py) and validated clause by
                         clause by TLC; assumption UnitCube is monitored on the wrappers' unit samples.
+
+"Expressed in the design space's variable order":
+  * user side - everything a user hands over BY NAME or BY COMPONENT is enumerated by TLC (DOEPipeline with
+    UxMode = "rich", `rich_scenarios`): user-supplied designs (CustomDOE) as a 2-D array, a list of mappings, a
+    mapping of 2-D arrays and a file (delimiter / skiprows / comment lines), with the keys in every order;
+    DiagonalDOE `reverse` by variable name and by component index; full-factorial `levels` per direction;
+    axial / factorial / composite `centers` per direction + `levels`; OATDOE `initial_point`.  The specification
+    gives the input its meaning by (variable name, offset) and states the result against it (VariableOrder,
+    Structure, CountRule); calls that mean the same share one memo entry (Deterministic across input forms).
+  * design-space side - the spaces have >= 2 variables of sizes 1-2 incl. an integer one, added in a
+    non-alphabetical order, and are obtained through rename_variable / remove_variable / filter /
+    filter_dimensions (c14_rec.decorate); the specification computes the resulting order (Prep) and the real
+    space's layout is compared with it (SpaceLayout); compute_doe is also given a DIMENSION instead of a space.
 """
 from __future__ import annotations
 
@@ -19,10 +32,14 @@ from ..core import Check, Graph, MachineryError, main
 from . import c14_rec as rec
 
 INVS = ["FlagDuring", "IntNormRestored", "InBounds", "Integral", "ImageOfUnit", "CountRule", "RejectRule",
-        "SeedRule", "Structure", "Deterministic", "DbOrder", "CountLemma"]
+        "SeedRule", "Structure", "Deterministic", "DbOrder", "CountLemma", "VariableOrder", "SpaceWellFormed"]
 TINVS = ["TFlagDuring", "TIntNormRestored", "TInBounds", "TIntegral", "TImageOfUnit", "TSeedRule", "TDeterministic"]
 ALLFAMS = ["exact", "exact2", "atmost", "diag", "fullfact", "axial", "factorial", "composite", "morris",
-           "sobolidx", "bb", "cc", "ff2n", "pb", "custom", "oat"]
+           "sobolidx", "bb", "cc", "ff2n", "pb", "custom", "oat", "fullfactL", "axialL", "factorialL", "compositeL"]
+ALLFORMS = ("array", "rows", "cols", "file")
+# families whose settings carry user-provided structure indexed by variable / component
+RICH_FAMS = ("custom", "diag", "fullfactL", "axialL", "factorialL", "compositeL", "oat")
+MACHINERY_CLAUSES = ("HarnessSpace", "HarnessInput")
 
 
 def tset(xs):
@@ -31,14 +48,19 @@ def tset(xs):
 
 
 def cfg(*, space=(1,), g=8, insts=(1, 2), apis=("compute", "execute"), fams=("exact",), ns=(1,), ps=(0,),
-        seeds=(1, 2), grid=(1, 4), injects=(False, True), mode="all", maxcalls=2, invs=INVS, trace=False):
+        seeds=(1, 2), grid=(1, 4), injects=(False, True), mode="all", maxcalls=2, invs=INVS, trace=False,
+        ux="plain", forms=("array",), only_begin=False):
     s = (f"CONSTANTS G = {g}\n S = 8\n SpaceIds = {tset(space if isinstance(space, tuple) else (space,))}\n Insts = {tset(insts)}\n Apis = {tset(apis)}\n"
          f" Fams = {tset(fams)}\n Ns = {tset(ns)}\n Ps = {tset(ps)}\n Seeds = {tset(seeds)}\n"
-         f" GridVals = {tset(grid)}\n Injects = {tset(injects)}\n UnitMode = \"{mode}\"\n MaxCalls = {maxcalls}\n")
+         f" GridVals = {tset(grid)}\n Injects = {tset(injects)}\n UnitMode = \"{mode}\"\n MaxCalls = {maxcalls}\n"
+         f" UxMode = \"{ux}\"\n Forms = {tset(forms)}\n")
     if trace:
         s += "INIT TInit\nNEXT TNext\nCONSTRAINT Reach\nPOSTCONDITION Accepted\nCHECK_DEADLOCK FALSE\n"
         for i in TINVS:
             s += f"INVARIANT {i}\n"
+    elif only_begin:
+        # the calls the model can START (every user-provided structure of UserExtras): scenario enumeration
+        s += "INIT Init\nNEXT DoBegin\nCHECK_DEADLOCK FALSE\n"
     else:
         s += "SPECIFICATION Spec\nCHECK_DEADLOCK FALSE\n"
         for i in invs:
@@ -46,17 +68,24 @@ def cfg(*, space=(1,), g=8, insts=(1, 2), apis=("compute", "execute"), fams=("ex
     return s
 
 
-# asymmetric dyadic bounds (multiples of 1/8); (lb, ub, is_integer)
+# asymmetric dyadic bounds (multiples of 1/8); (lb, ub, is_integer, variable name): consecutive components with
+# the same name form one variable (sizes 1-2); the variables are NOT in alphabetical order
 SPACES = {
-    "d1f": [(-3.0, -1.0, False)],
-    "d1i": [(2.0, 7.0, True)],
-    "d2f": [(-3.0, -1.0, False), (0.5, 0.75, False)],
-    "d2m": [(0.5, 0.75, False), (2.0, 7.0, True)],
-    "d3f": [(-3.0, -1.0, False), (1.0, 9.0, False), (0.5, 0.75, False)],
-    "d3m": [(-3.0, -1.0, False), (1.0, 9.0, False), (2.0, 7.0, True)],
-    "d4f": [(-3.0, -1.0, False), (1.0, 9.0, False), (0.5, 0.75, False), (-0.125, 1.875, False)],
-    "d4m": [(-3.0, -1.0, False), (-1.0, 2.0, True), (0.5, 0.75, False), (1.0, 9.0, False)],
+    "d1f": [(-3.0, -1.0, False, "x")],
+    "d1i": [(2.0, 7.0, True, "k")],
+    "d2f": [(-3.0, -1.0, False, "y"), (0.5, 0.75, False, "b")],
+    "d2m": [(0.5, 0.75, False, "y"), (2.0, 7.0, True, "k")],
+    "d3f": [(-3.0, -1.0, False, "z"), (1.0, 9.0, False, "z"), (0.5, 0.75, False, "a")],
+    "d3m": [(-3.0, -1.0, False, "z"), (1.0, 9.0, False, "z"), (2.0, 7.0, True, "k")],
+    "d4f": [(-3.0, -1.0, False, "y"), (1.0, 9.0, False, "c"), (0.5, 0.75, False, "c"), (-0.125, 1.875, False, "a")],
+    "d4m": [(-3.0, -1.0, False, "y"), (-1.0, 2.0, True, "n"), (0.5, 0.75, False, "b"), (1.0, 9.0, False, "b")],
 }
+
+
+def unit_comps(d):
+    return [(0.0, 1.0, False, f"w{k // 2}") for k in range(d)]
+
+
 N_VALUES = (1, 2, 5, 8, 17)
 
 
@@ -115,13 +144,28 @@ def model_check(ck: Check):
         require(r, ("DoBegin", "DoSample", "DoFinish"), f"image model, spaces {spaces}")
     # (2c) the structured designs built by gemseo's own wrapper code: TLC searches ALL matrices over the grid
     #      for those the structure rules admit (non-vacuity of the rules) and checks the pipeline on them
-    struct = [(2, (2, 3, 5), (0, 2, 4, 6, 8), ("diag", "fullfact", "axial", "factorial", "composite"))]
+    #      (d = 2 with per-direction user structure: reversed variables of the diagonal design by name / by
+    #      component index, levels per direction, centre + levels of an axial design)
+    struct = [(2, (2, 3, 5), (0, 2, 4, 6, 8), ("diag", "fullfact", "axial", "factorial", "composite"), "plain"),
+              (3, (2, 3), (0, 4, 8), ("diag",), "rich"),
+              (4, (0,), (0, 8), ("fullfactL",), "plain")]
     if ck.thorough:
-        struct.append((3, (4, 5), (0, 4, 8), ("fullfact", "axial", "factorial")))
-    for sp, ns, grid, fams in struct:
+        struct.append((3, (4, 5), (0, 4, 8), ("fullfact", "axial", "factorial"), "plain"))
+        struct.append((4, (2, 3), (0, 4, 8), ("diag",), "rich"))
+        struct.append((4, (0,), (0, 4, 8), ("fullfactL", "axialL"), "plain"))
+    for sp, ns, grid, fams, uxm in struct:
         r = ck.tlc("DOEPipeline", cfg(space=sp, insts=(1,), apis=("compute",), fams=fams, ns=ns, seeds=(1,), grid=grid,
-                                      injects=(False,), mode="all", maxcalls=1), workers=4, timeout=900)
-        require(r, ("DoBegin", "DoSample", "DoFinish"), f"structure model, space {sp}")
+                                      injects=(False,), mode="all", maxcalls=1, ux=uxm), workers=4, timeout=900)
+        require(r, ("DoBegin", "DoSample", "DoFinish"), f"structure model, space {sp}, {fams}")
+    # (2d) user-supplied designs as named-column tables: every input form x key order x table; two calls, so
+    #      that the same table handed over in two different forms meets the memo (Deterministic)
+    runs = [((3, 5), (1,), (0, 8), 2), ((3, 4, 5, 6), (1, 2), (0, 4, 8), 1) if ck.thorough else ((4, 6), (1, 2), (0, 8), 1)]
+    for spaces, ps, grid, mc in runs:
+        r = ck.tlc("DOEPipeline",
+                   cfg(space=spaces, insts=(1,), apis=("compute", "execute"), fams=("custom",), ns=(0,), ps=ps, seeds=(1,),
+                       grid=grid, injects=(False,), mode="rows", maxcalls=mc, ux="rich", forms=ALLFORMS,
+                       invs=INVS + ["PresentationNeutral"]), workers=4, timeout=900)
+        require(r, ("DoBegin", "DoSample", "DoFinish"), f"named-column table model, spaces {spaces}")
     # (3) outside the quantifier: TLC refutes "at most n" for the Sobol'-indices design (d = 1, second order)
     r = ck.tlc("DOEPipeline",
                cfg(space=1, insts=(1,), apis=("compute",), fams=("sobolidx",), ns=tuple(range(1, 13)), ps=(0, 1),
@@ -156,6 +200,86 @@ def histories(ck: Check, maxcalls):
     ck.extra["history_graph"] = {"states": len(g.states), "edges": len(g.edges), "tour_paths": len(paths),
                                  "distinct_histories": len(hs)}
     return hs
+
+
+def _canon(v):
+    if isinstance(v, dict):
+        return tuple(sorted((k, _canon(x)) for k, x in v.items()))
+    if isinstance(v, (set, frozenset)):
+        return tuple(sorted(_canon(x) for x in v))
+    if isinstance(v, (tuple, list)):
+        return tuple(_canon(x) for x in v)
+    return v
+
+
+def _plain(v):
+    """TLA+ value (parsed) -> JSON-able value for the recorder / the trace."""
+    if isinstance(v, dict):
+        return {str(k): _plain(x) for k, x in v.items()}
+    if isinstance(v, (tuple, list)):
+        return [_plain(x) for x in v]
+    if isinstance(v, bool) or isinstance(v, int):
+        return v
+    return str(v)
+
+
+def rich_scenarios(ck: Check, first_id):
+    """spec -> code for the user-provided structure: TLC enumerates every call the model can start with
+    UxMode = "rich" (input forms x key orders x tables of a user-supplied design, reversed variables by name /
+    component index, levels and centres per direction, initial point) on spaces with >= 2 variables of sizes
+    1-2 incl. an integer one and on the unit space compute_doe builds from a dimension; the calls that MEAN the
+    same (same aux) are run one after the other on two library instances, through compute_doe and execute."""
+    spaces = (3, 4, 5, 6, 102)
+    r = ck.tlc("DOEPipeline",
+               cfg(g=rec.G, space=spaces, insts=(1,), apis=("compute",), fams=RICH_FAMS, ns=(0, 2, 3), ps=(0, 1, 2),
+                   seeds=(1,), grid=(0, rec.G), injects=(False,), mode="rows", maxcalls=1, ux="rich", forms=ALLFORMS,
+                   invs=["PresentationNeutral", "SpaceWellFormed"], only_begin=True),
+               workers=1, timeout=600, dump=True, coverage=False)
+    g = Graph(ck.work / "DOEPipeline.dot")
+    groups: dict = {}
+    for st in g.states.values():
+        if st["pc"] != "begun":
+            continue
+        c = st["cur"]
+        fam = str(c["fam"])
+        if c["seeded"] or (fam == "diag" and c["n"] < 2) or (fam == "custom" and c["p"] < 1) or (fam == "oat" and c["p"]):
+            continue
+        key = (_canon(st["sp"]), fam, c["n"], c["p"], _canon(c["aux"]))
+        groups.setdefault(key, {"sp": st["sp"], "fam": fam, "n": c["n"], "p": c["p"], "uxs": []})["uxs"].append(_plain(c["ux"]))
+    if not groups:
+        raise MachineryError("no call with user-provided structure extracted from the state graph")
+    out = []
+    sid = first_id
+    counts: dict = {}
+    for key in sorted(groups, key=repr):
+        gr = groups[key]
+        comps = [(c["lb"] / rec.S, c["ub"] / rec.S, bool(c["int"]), str(c["var"])) for c in gr["sp"]]
+        unit = all(c[3] == "x" and c[0] == 0.0 and c[1] == 1.0 for c in comps) and len(comps) >= 2
+        uxs = sorted(gr["uxs"], key=repr)
+        if not ck.thorough and gr["fam"] in ("axialL", "factorialL", "compositeL") and len(comps) >= 3:
+            # quick tier: in dimensions >= 3, the centre vectors that are not constant are thinned out
+            if not uxs[0]["scal"] and len(set(uxs[0]["pv"])) > 1 and (sum(uxs[0]["pv"]) // 16 + len(uxs[0]["lv"])) % 3:
+                continue
+        for algo in rec.FAM_ALGOS[gr["fam"]]:
+            sid += 1
+            asint = len(comps) if (unit and sid % 2) else 0
+            hist = []
+            for i, ux in enumerate(uxs + (uxs if len(uxs) == 1 else [])):
+                api = "compute" if (asint or (i + sid) % 2 == 0) else "execute"
+                hist.append((1 + i % 2, api, False, 0, False, ux))
+                k = (gr["fam"], ux["form"], "permuted" if ux["perm"] and ux["perm"] != sorted(ux["perm"], key=[c[3] for c in comps].index) else "in-order")
+                counts[k] = counts.get(k, 0) + 1
+            out.append({"id": sid, "algo": algo, "fam": gr["fam"], "space": "r:" + "".join(dict.fromkeys(c[3] for c in comps)) + ("int" if asint else ""),
+                        "comps": comps, "flag0": (sid % 2 == 0), "asint": asint, "prepv": sid // 2, "n": gr["n"], "p": gr["p"],
+                        "variant": 0, "history": hist, "rich": True})
+    ck.extra["user_structure_calls[family,form,key order]"] = {"/".join(k): v for k, v in sorted(counts.items())}
+    ck.extra["user_structure_graph"] = {"states": len(g.states), "groups": len(groups), "scenarios": len(out)}
+    need = [("custom", f, "in-order") for f in ALLFORMS] + [("custom", "rows", "permuted"), ("custom", "cols", "permuted")] + \
+           [(f, "none", "in-order") for f in RICH_FAMS if f != "custom"]
+    for k in need:
+        if not counts.get(k):
+            raise MachineryError(f"vacuity: no call with user-provided structure {k}")
+    return out
 
 
 # every scenario ends with the same seeded call on both instances: equal (algo, settings, seed) in
@@ -200,8 +324,12 @@ def boundary_scenarios(ck: Check, first_id):
         for d, k in fullfact_cases(ck.thorough):
             for n in (k ** d - 1, k ** d, k ** d + 1):
                 sid += 1
-                out.append({"id": sid, "algo": a, "space": f"unit{d}", "comps": [(0.0, 1.0, False)] * d, "flag0": False,
-                            "n": n, "variant": 0, "history": [(1, "compute", False, 0, False)], "boundary": True})
+                # every other one hands the DIMENSION to compute_doe instead of a design space
+                asint = d if sid % 2 else 0
+                out.append({"id": sid, "algo": a, "space": f"unit{d}" + ("int" if asint else ""),
+                            "comps": [(0.0, 1.0, False, "x")] * d if asint else unit_comps(d), "flag0": False,
+                            "asint": asint, "prepv": sid // 2, "n": n, "variant": 0,
+                            "history": [(1, "compute", False, 0, False)], "boundary": True})
     dims = {1: "d1f", 2: "d2m", 3: "d3f", 4: "d4m"}
     for a, base in LEVEL_BASE.items():
         for d, sname in dims.items():
@@ -211,7 +339,7 @@ def boundary_scenarios(ck: Check, first_id):
                         continue
                     sid += 1
                     out.append({"id": sid, "algo": a, "space": sname, "comps": SPACES[sname], "flag0": (sid % 2 == 0),
-                                "n": n, "variant": 0, "boundary": True,
+                                "n": n, "variant": 0, "boundary": True, "prepv": sid // 2,
                                 "history": [(1, "compute", False, 0, False), (2, "execute", True, 2, False)]})
     return out
 
@@ -244,7 +372,7 @@ def scenarios(ck: Check, rng, hs):
                     hi += 1
                     sid += 1
                     sc = {"id": sid, "algo": a, "space": sname, "comps": comps, "flag0": (sid % 2 == 0), "n": n,
-                          "variant": vi + rep + si, "history": h + probe(1 + (sid % 3))}
+                          "variant": vi + rep + si, "history": h + probe(1 + (sid % 3)), "prepv": sid // 2}
                     if a == "PYDOE_CCDESIGN" and sc["variant"] % 3 == 2:
                         # circumscribed face: outside the cube by construction; executing it fails the
                         # design-space membership check and leaves an out-of-bounds current value behind
@@ -264,6 +392,8 @@ def run(ck: Check):
     bnd = boundary_scenarios(ck, len(scs))
     ck.extra["boundary_scenarios"] = len(bnd)
     scs += bnd
+    rec.WORKDIR = ck.work
+    scs += rich_scenarios(ck, len(scs))
     t0 = time.time()
     traces = []
     meta = {}
@@ -275,6 +405,15 @@ def run(ck: Check):
         traces.append(tr)
         meta[sc["id"]] = sc
     ck.extra["record_wall_s"] = round(time.time() - t0, 1)
+    # the design-space side of "the design space's variable order": how the spaces of the scenarios were obtained
+    prep_kinds: dict[str, int] = {}
+    for tr in traces:
+        k = "dimension handed to compute_doe" if tr["asint"] else ("+".join(o["op"] for o in tr["prep"]) or "add_variable only")
+        prep_kinds[k] = prep_kinds.get(k, 0) + 1
+    ck.extra["design_space_preparation[scenarios]"] = prep_kinds
+    for k in ("dimension handed to compute_doe", "add_variable only", "rename", "remove", "keep", "dims", "remove+rename"):
+        if not prep_kinds.get(k):
+            raise MachineryError(f"vacuity: no scenario on a design space obtained by '{k}'")
     validate(ck, traces, meta)
     ck.exhaustive = False
     ck.assumptions += [
@@ -283,6 +422,10 @@ def run(ck: Check):
         "off-grid (random) samples: bounds/integrality/image clauses are evaluated by TLC on exact three-way comparison "
         "codes computed with fractions.Fraction on the doubles (image tolerance 4 ulp of the bound magnitude)",
         "test doubles on the library instance: recording Seeder subclass, wrapper of _generate_unit_samples",
+        "user-provided structure (input forms and key orders of user-supplied designs, reversed variables, levels / "
+        "centres per direction, initial point) is enumerated by TLC on dyadic values; the design spaces are prepared by "
+        "DesignSpace operations (rename / remove / filter / filter_dimensions) whose effect on the order is computed by "
+        "the specification; malformed user structure (wrong lengths, unknown names) is not exercised",
         "families outside C14's quantifier (pyDOE structured designs, OAT, Sobol'-indices design, Poisson disk) are "
         "recorded and validated too; their UnitCube/AtMostRequested failures are reported as observations, not violations",
     ]
@@ -311,13 +454,17 @@ def validate(ck: Check, traces, meta):
             reached, total, fails = verdict[t["id"]]
             evs = t["events"]
             base = {"algo": sc["algo"], "space": sc["space"], "n": sc["n"], "flag0": sc["flag0"],
-                    "history": [list(h) for h in sc["history"]]}
+                    "raw": t["raw"], "prep": t["prep"], "asint": t["asint"],
+                    "history": [list(h[:5]) for h in sc["history"]]}
             clean = reached == total
             if not clean:
                 nxt = evs[reached] if reached < len(evs) else None
                 ck.violation("TraceConformance", {"family": rec.ALGOS[sc["algo"]]["fam"], "event": nxt and nxt["ev"]},
                              dict(base, matched_prefix=reached, next_event=_short(nxt)))
             for (l, clause) in sorted(fails):
+                if clause in MACHINERY_CLAUSES:
+                    raise MachineryError(f"{clause} failed on scenario {t['id']} ({sc['algo']} {sc['space']}), event {l}: "
+                                         f"{_short(evs[l - 1])}")
                 e = evs[l - 1]
                 call = _call_of(evs, l - 1)
                 if clause == "IntNormRestored" and e["ev"] == "end" and not e.get("ok"):
@@ -331,7 +478,8 @@ def validate(ck: Check, traces, meta):
                     continue
                 clean = False
                 sig = {"family": call["fam"], "p": call["p"], "api": call["api"], "event": e["ev"],
-                       "outcome": ("ok" if e.get("ok") else "raise") if e["ev"] == "end" else "na"}
+                       "outcome": ("ok" if e.get("ok") else "raise") if e["ev"] == "end" else "na",
+                       "form": call["ux"]["form"], "n_variables": len({c["var"] for c in t["final"]})}
                 if e["ev"] == "end" and not e.get("ok"):
                     sig["stage"] = evs[l - 2]["ev"]
                 ck.violation(clause, sig, dict(base, event_index=l, call=_short(call), event=_short(e),
@@ -345,7 +493,7 @@ def validate(ck: Check, traces, meta):
                        "events": [_short(e) for e in t["events"][:6]]})
     grid_calls: dict[str, list[int]] = {}
     for t in traces:
-        fam = rec.ALGOS[meta[t["id"]]["algo"]]["fam"]
+        fam = meta[t["id"]].get("fam") or rec.ALGOS[meta[t["id"]]["algo"]]["fam"]
         for e in t["events"]:
             if e["ev"] == "sample":
                 g = grid_calls.setdefault(fam, [0, 0])
@@ -376,7 +524,9 @@ def _short(e):
         return None
     out = {}
     for k, v in e.items():
-        if k in ("u", "x", "rowids", "keys") and isinstance(v, list) and len(v) > 6:
+        if k == "ux":
+            out[k] = {kk: vv for kk, vv in v.items() if vv not in ([], 0, False, "none")}
+        elif k in ("u", "x", "rowids", "keys") and isinstance(v, list) and len(v) > 6:
             out[k] = v[:6] + ["..."]
         else:
             out[k] = v
